@@ -188,7 +188,7 @@ def run_property(pid, tier, seed, jobs=None):
             # a check must end in bounded time also on a tree where the cheap proofs stop working (e.g. a refactoring that is an identity
             # over the reals but not for the solver): when the wall-clock budget of the tier is used up the remaining shapes are not
             # explored and are reported as such -- never as held
-            budget = float(os.environ.get("VERIF_BUDGET_S") or getattr(mod, "BUDGET_S", {}).get(tier, 1500 if tier == "quick" else 6 * 3600))
+            budget = float(os.environ.get("VERIF_BUDGET_S") or getattr(mod, "BUDGET_S", {}).get(tier, 1500 if tier == "quick" else 3600))
             while pending:
                 if time.time() - t0 > budget:
                     out_of_time = pending
